@@ -356,9 +356,15 @@ SIM_CHECKS = {
     "C02": [dict(engine="c02", quick=24000, thorough=400000, build="default")],
     "C03": [dict(engine="c03", quick=24000, thorough=400000, build="default")],
     "C15": [dict(engine="c15", quick=40000, thorough=600000, build="default")],
+    "C18": [dict(engine="c18", quick=30000, thorough=500000, build="default")],
 }
 
 RULES = {
+    "C18": "case = (map, target mode, history of 1-12 setter calls with in-range, boundary, out-of-range and infinite "
+    "values incl. .difficulty(d) replacement, inspect round trips and clones at arbitrary points, score spec, optional "
+    "raw write into InspectDifficulty). Three clients replay the history (Performance setters, Difficulty setters, "
+    "last-value record model) and must agree on result, inspectable form and clamps; documented-irrelevant setters "
+    "must not change the result. Non-trivial = history of >= 2 setters; distinct = distinct (mode, setter-kind sequence).",
     "C01": "case = (pool of 1-3 maps incl. tie-heavy timing, 2-7 logical calls, history of 6-56 ops: calls repeated in "
     "seeded order with fresh or reused builders, interleaved with environment events: new hash universe (fresh "
     "thread = fresh RandomState keys from the getrandom shim), heap noise, allocator junk/poison reseed, clock jump). "
